@@ -71,7 +71,16 @@ TTable ==
   /\ LET rows == {<<E.rows[i].lo, E.rows[i].hi>> : i \in 1..Len(E.rows)}
          missing == {i \in 1..Len(Ranges) : <<Ranges[i].lo, Ranges[i].hi>> \notin rows}
          extra == {r \in rows : r[1] # r[2] /\ ~\E i \in 1..Len(Ranges) : <<Ranges[i].lo, Ranges[i].hi>> = r}
-     IN (missing = {} /\ extra = {}) \/ Bad([k |-> "table", missing |-> missing, extra |-> extra])
+         \* every single code of the table is listed under its own class: the last range row before it contains it
+         Under(i) == LET before == {j \in 1..(i - 1) : E.rows[j].lo # E.rows[j].hi}
+                     IN before # {} /\ LET j == CHOOSE j \in before : \A q \in before : q <= j
+                                       IN E.rows[j].lo <= E.rows[i].lo /\ E.rows[i].lo <= E.rows[j].hi
+         misplaced == {E.rows[i].lo : i \in {i \in 1..Len(E.rows) : E.rows[i].lo = E.rows[i].hi /\ ~Under(i)}}
+         \* ... and the scripted backend's own codes, registered at the first / last code of a class, are there
+         own == {200, 299, 400, 500, 501, 421}
+         unlisted == {c \in own : ~\E i \in 1..Len(E.rows) : E.rows[i].lo = c /\ E.rows[i].hi = c}
+     IN (missing = {} /\ extra = {} /\ misplaced = {} /\ unlisted = {})
+        \/ Bad([k |-> "table", missing |-> missing, extra |-> extra, misplaced |-> misplaced, unlisted |-> unlisted])
 TOther == /\ E.e \notin {"Case", "Classify", "ComputeIIS", "Ray", "DRay", "Sol", "Alt", "Exit", "Table"}
           /\ Step /\ UNCHANGED <<cur, seen>>
           /\ E.e = "Meta" \/ Bad([k |-> "event", ev |-> E.e])
